@@ -119,7 +119,7 @@ func LoadRef() (*Prog, error) {
 	if refProg != nil {
 		return refProg, nil
 	}
-	p, err := LoadProg(verifDir()+"/checker", []string{"./ref"}, []string{"verif/checker/ref"}, nil)
+	p, err := LoadProg(srcDir()+"/checker", []string{"./ref"}, []string{"verif/checker/ref"}, nil)
 	if err != nil {
 		return nil, err
 	}
